@@ -186,7 +186,7 @@ _CMP = {
     ast.Eq: operator.eq, ast.NotEq: operator.ne, ast.Lt: operator.lt, ast.LtE: operator.le, ast.Gt: operator.gt, ast.GtE: operator.ge,
     ast.Is: operator.is_, ast.IsNot: operator.is_not, ast.In: lambda a, b: a in b, ast.NotIn: lambda a, b: a not in b,
 }
-_PLAIN = (str, int, float, bool, type(None), list, tuple, dict, set, frozenset, PurePosixPath, range, bytes)
+_PLAIN = (str, int, float, bool, type(None), list, tuple, dict, set, frozenset, PurePosixPath, range, bytes, slice)
 
 PURE_BUILTINS = {
     "len": len, "str": str, "int": int, "bool": bool, "float": float, "list": list, "tuple": tuple, "set": set, "frozenset": frozenset, "dict": dict,
@@ -1066,6 +1066,8 @@ class Evaluator:
             if m is not None:
                 return self.module_name(attr, m)
             return self._lib(name)
+        if isinstance(o, (str, int, tuple, frozenset, slice, range, bytes)) and not attr.startswith("_") and hasattr(o, attr):
+            return getattr(o, attr)  # immutable builtin values: every public method is a pure function of the value
         if isinstance(o, str) and attr in STR_METHODS:
             return getattr(o, attr)
         if isinstance(o, list) and attr in LIST_METHODS:
@@ -1320,6 +1322,7 @@ class Evaluator:
         if not ok and recv is not None and not isinstance(recv, type(builtins)):
             name = getattr(f, "__name__", "")
             ok = (
+                (isinstance(recv, (str, int, tuple, frozenset, slice, range, bytes)) and not isinstance(recv, type) and not name.startswith("_")) or
                 (isinstance(recv, str) and name in STR_METHODS) or (isinstance(recv, list) and name in LIST_METHODS) or (isinstance(recv, tuple) and name in TUPLE_METHODS)
                 or (isinstance(recv, dict) and name in DICT_METHODS) or (isinstance(recv, (set, frozenset)) and name in SET_METHODS) or (isinstance(recv, PurePosixPath) and name in PATH_METHODS)
                 or (isinstance(recv, re.Pattern) and name in RE_PATTERN_ATTRS) or (isinstance(recv, re.Match) and name in RE_MATCH_ATTRS)
